@@ -51,6 +51,40 @@ theorem prefixmatch_iff (a b : Bytes) (len : Nat) (hab : a.length = b.length) (h
       rwa [bitAt_mk a _ j (by omega), bitAt_mk b _ j (by omega)] at this
   rw [hlast]
 
+/-! ### prefixes nest: what the overlapping-entry orders of the property rest on -/
+
+/-- A source that matches an address/len entry matches every shorter prefix of the same address:
+    the sources of a /24 are among the sources of the /16 — every width, every pair of lengths. -/
+theorem prefixmatch_mono (a b : Bytes) (len len' : Nat) (hab : a.length = b.length) (hlen : len ≤ 8 * a.length)
+    (hle : len' ≤ len) (h : prefixmatch a b len = true) : prefixmatch a b len' = true := by
+  rw [prefixmatch_iff a b len hab hlen] at h
+  rw [prefixmatch_iff a b len' hab (by omega)]
+  intro i hi; exact h i (by omega)
+
+/-- every address matches itself at every prefix length -/
+theorem prefixmatch_refl (a : Bytes) (len : Nat) (hlen : len ≤ 8 * a.length) : prefixmatch a a len = true := by
+  rw [prefixmatch_iff a a len rfl hlen]; intro _ _; rfl
+
+theorem prefixmatch_symm (a b : Bytes) (len : Nat) (hab : a.length = b.length) (hlen : len ≤ 8 * a.length)
+    (h : prefixmatch a b len = true) : prefixmatch b a len = true := by
+  rw [prefixmatch_iff a b len hab hlen] at h
+  rw [prefixmatch_iff b a len hab.symm (by omega)]
+  intro i hi; exact (h i hi).symm
+
+/-- two sources inside one address/len entry are inside each other's: an entry denotes a block of addresses,
+    whichever of its members the configuration names -/
+theorem prefixmatch_trans (a b c : Bytes) (len : Nat) (hab : a.length = b.length) (hbc : b.length = c.length)
+    (hlen : len ≤ 8 * a.length) (h1 : prefixmatch a b len = true) (h2 : prefixmatch b c len = true) :
+    prefixmatch a c len = true := by
+  rw [prefixmatch_iff a b len hab hlen] at h1
+  rw [prefixmatch_iff b c len hbc (by omega)] at h2
+  rw [prefixmatch_iff a c len (hab.trans hbc) hlen]
+  intro i hi; exact (h1 i hi).trans (h2 i hi)
+
+/-- Non-vacuity: 10.1.2.3 is inside 10.1.0.0/16 (hence /9) and outside 10.1.0.0/24. -/
+example : prefixmatch [10, 1, 2, 3] [10, 1, 0, 0] 16 = true ∧ prefixmatch [10, 1, 2, 3] [10, 1, 0, 0] 9 = true ∧
+    prefixmatch [10, 1, 2, 3] [10, 1, 0, 0] 24 = false := by decide
+
 theorem leadingBitsEq_iff (a b : Bytes) (len : Nat) :
     leadingBitsEq a b len = true ↔ ∀ i < len, bitAt a i = bitAt b i := by
   simp [leadingBitsEq]
